@@ -32,6 +32,10 @@ func init() {
 		"bytes.Index":                          inIndex,
 		"internal/stringslite.Index":           inIndex,
 		"strings.EqualFold":                    nil, // real code
+		"strconv.FormatInt":                    inFormatInt,
+		"strconv.FormatUint":                   inFormatInt,
+		"strings.ToLower":                      inToLower,
+		"strings.ToUpper":                      inToUpper,
 		"internal/reflectlite.TypeOf": func(m *Machine, c *frame, fn *ssa.Function, a []value) value {
 			m.unsupported("reflection (reflectlite.TypeOf)")
 			return nil
@@ -526,4 +530,82 @@ func inUniqueMake(m *Machine, c *frame, fn *ssa.Function, a []value) value {
 func inUniqueValue(m *Machine, c *frame, fn *ssa.Function, a []value) value {
 	h := a[0].(Struct)
 	return m.load(h[0].(Ptr))
+}
+
+// ---- validated models ----
+
+// strings.ToLower / ToUpper on all-ASCII input are modelled byte-wise
+// (ite on the letter range) so that the result bytes stay single-variable
+// terms; as soon as one byte may be non-ASCII the real code runs on that
+// path.  The model is validated against the real SSA body by the
+// VerifModel* harnesses (run with Options.NoModels).
+func inToLower(m *Machine, c *frame, fn *ssa.Function, a []value) value {
+	return m.caseModel(c, fn, a, 'A', 'Z', 32)
+}
+
+func inToUpper(m *Machine, c *frame, fn *ssa.Function, a []value) value {
+	return m.caseModel(c, fn, a, 'a', 'z', ^uint64(31)) // -32 mod 256
+}
+
+func (m *Machine) caseModel(c *frame, fn *ssa.Function, a []value, lo, hi byte, delta uint64) value {
+	s := a[0].(Str)
+	if m.Opts.NoModels {
+		return m.callBody(c, fn, a)
+	}
+	if s.b == nil {
+		// concrete: run the real code concretely
+		return m.callBody(c, fn, a)
+	}
+	for i := 0; i < s.Len(); i++ {
+		if !m.branch(m.tt.Cmp(OpULt, m.strAt(s, i), m.tt.BV(8, 0x80)), "ToLower/ToUpper model: ASCII byte") {
+			return m.callBody(c, fn, a)
+		}
+	}
+	out := make([]*Term, s.Len())
+	for i := range out {
+		b := m.strAt(s, i)
+		isL := m.tt.And(m.tt.Cmp(OpULe, m.tt.BV(8, uint64(lo)), b), m.tt.Cmp(OpULe, b, m.tt.BV(8, uint64(hi))))
+		out[i] = m.tt.Ite(isL, m.tt.Bin(OpAdd, b, m.tt.BV(8, delta)), b)
+	}
+	return strFromTerms(out)
+}
+
+// callBody runs the real body of an intercepted function.
+func (m *Machine) callBody(c *frame, fn *ssa.Function, a []value) value {
+	m.bypass = fn
+	defer func() { m.bypass = nil }()
+	return m.callFunction(c, fn, a, nil)
+}
+
+// strconv.FormatInt/FormatUint(v, 10) for a symbolic v whose range is known
+// to be within 0..999999: fork on the number of digits, digits as division
+// terms.  (The real code slices a digit table with symbolic bounds, which
+// would enumerate every value.)  Validated by VerifModelItoa.
+func inFormatInt(m *Machine, c *frame, fn *ssa.Function, a []value) value {
+	v := a[0].(*Term)
+	base := a[1].(*Term)
+	if m.Opts.NoModels || v.IsConst() || !base.IsConst() || base.Const() != 10 || v.sort != 64 {
+		return m.callBody(c, fn, a)
+	}
+	e := &ivalEval{m: m, memo: map[int]ival{}, bmem: map[int]int8{}}
+	iv := e.iv(v)
+	if iv.hi > 999999 {
+		return m.callBody(c, fn, a)
+	}
+	tt := m.tt
+	nd := 1
+	for lim := uint64(10); lim <= 100000; lim *= 10 {
+		if m.branch(tt.Cmp(OpULt, v, tt.BV(64, lim)), "FormatInt model: digit count") {
+			break
+		}
+		nd++
+	}
+	out := make([]*Term, nd)
+	div := uint64(1)
+	for i := nd - 1; i >= 0; i-- {
+		d := tt.Bin(OpURem, tt.Bin(OpUDiv, v, tt.BV(64, div)), tt.BV(64, 10))
+		out[i] = tt.Bin(OpAdd, tt.Extract(d, 7, 0), tt.BV(8, '0'))
+		div *= 10
+	}
+	return strFromTerms(out)
 }
